@@ -1,6 +1,6 @@
 """C08 plugin.  pregen (tie T1): harness/cmd/c08/extract (go/ast, source text only) regenerates
-lean/GeomV/C08/Gen/GoProj.lean from the CURRENT proj/{merc,lcc,aea,eqdc,tmerc,krovak}.go; the `rfl` lemmas of
-lean/GeomV/C08/Ties.lean then re-check model = source for every arithmetic right-hand side."""
+lean/GeomV/C08/Gen/GoProj.lean from the CURRENT proj/{common,datum,merc,lcc,aea,eqdc,tmerc,utm,krovak}.go; the `rfl` lemmas of
+lean/GeomV/C08/{Ties,TiesCommon,TiesReal}.lean then re-check model = source for every arithmetic right-hand side."""
 import os, subprocess, sys
 sys.path.insert(0, os.path.join(os.path.dirname(os.path.dirname(os.path.abspath(__file__))), "lib"))
 import vcheck
@@ -27,7 +27,7 @@ def pregen(check):
 
 CFG = {
     "id": "C08",
-    "lean_modules": ["GeomV.C08.Proofs", "GeomV.C08.ProofsConic", "GeomV.C08.ProofsTmerc", "GeomV.C08.ProofsGeodetic", "GeomV.C08.ProofsKrovak", "GeomV.C08.ProofsUnique", "GeomV.C08.ProofsConverge", "GeomV.C08.Ties"],
+    "lean_modules": ["GeomV.C08.Proofs", "GeomV.C08.ProofsConic", "GeomV.C08.ProofsTmerc", "GeomV.C08.ProofsGeodetic", "GeomV.C08.ProofsKrovak", "GeomV.C08.ProofsUnique", "GeomV.C08.ProofsConverge", "GeomV.C08.ProofsHelmert", "GeomV.C08.Ties", "GeomV.C08.TiesCommon", "GeomV.C08.TiesReal"],
     "pregen": pregen,
     "exe": "geomv_c08",
     "go_cmd": "c08",
@@ -48,11 +48,22 @@ CFG = {
         "C08_merc_ell_inv_within", "C08_lcc_inv_within", "tmercPhi_contracts", "C08_tmerc_footpoint_converges",
         "imlfn_contracts", "C08_imlfn_converges", "C08_eqdc_inv_within", "krovak_contracts", "C08_krovak_lat_fixed_unique",
         "krovakLoop_converges", "C08_krovak_lat_converges", "C08_krovak_inv_within", "logTs_sin_lipschitz",
-        "C08_merc_ell_reproject_within"]] + [
+        "C08_merc_ell_reproject_within",
+        # the 7-parameter stage: exact residual of the small-angle inverse and its bound (the judge's a-priori bound)
+        "C08_helmert_residual", "C08_helmert_residual_bound", "rot_sq_le_sum_sq", "C08_helmert_not_identity"]] + [
         # tie T1: model = definitions regenerated from the current Go source (rfl)
         T + "Ties." + n for n in ["tie_initMerc", "tie_fwdMerc", "tie_invMerc", "tie_initLcc", "tie_fwdLcc", "tie_invLcc",
                                   "tie_initAea", "tie_fwdAea", "tie_invAea", "tie_aeaPhi1zStep", "tie_initEqdc", "tie_fwdEqdc",
-                                  "tie_invEqdc", "tie_initTmerc", "tie_fwdTmerc", "tie_tmercPhiStep", "tie_invTmerc"]],
+                                  "tie_invEqdc", "tie_initTmerc", "tie_fwdTmerc", "tie_tmercPhiStep", "tie_invTmerc",
+                                  # part 2 (TiesCommon): common.go, datum.go, utm.go, krovak.go constants and latitude step
+                                  "tie_msfnz", "tie_sign", "tie_adjustLon", "tie_adjustLat", "tie_tsfnz", "tie_phi2zStep", "tie_phi2zLoop",
+                                  "tie_phi2z", "tie_e0fn", "tie_e1fn", "tie_e2fn", "tie_e3fn", "tie_mlfn", "tie_asinz", "tie_qsfnz",
+                                  "tie_imlfnStep", "tie_imlfnLoop", "tie_imlfn", "tie_geodeticToGeocentric", "tie_geodeticStep",
+                                  "tie_geocentricToGeodetic", "tie_geocentricToWgs84", "tie_geocentricFromWgs84", "tie_initUtm",
+                                  "tie_krovak_S45", "tie_krovak_S0", "tie_krovakLatStep",
+                                  # part 3 (TiesReal): krovak.go over the reals (Go folds S90-Uq, S0/2+S45, the Long0 default)
+                                  "krovak_long0_real", "krovak_ad_real", "krovak_s0half_real", "tie_initKrovak_real",
+                                  "tie_fwdKrovak_real", "tie_invKrovakVals_real", "datum_genau_real"]],
     "trusted_base": [
         "Lean 4.33.0 kernel; axioms of every theorem printed by #print axioms must be within {propext, Classical.choice, Quot.sound}; Mathlib v4.33 modules imported by RealInst/Lemmas/Proofs are checked by the same kernel",
         "the generic model lean/GeomV/C08/{ProjCommon,ProjMerc,ProjLcc,ProjAea,ProjEqdc,ProjTmerc,ProjKrovak,ProjDatum,ProjPipeline}.lean is ONE definition per Go function; its Float instance is tied to /repo/proj by the correspondence run on every check (1e-9 relative on projected metres, 1e-12 rad on angles), its Real instance is what the theorems are about",
